@@ -11,10 +11,12 @@ type zzAccept struct {
 	err error
 }
 
-type zzTempErr struct{}
+// zzTempErr is a transient accept failure: temporary, and either a timeout or not (EMFILE / ENFILE /
+// EINTR are temporary without being timeouts)
+type zzTempErr struct{ timeout bool }
 
 func (zzTempErr) Error() string   { return "zz: temporary accept error" }
-func (zzTempErr) Timeout() bool   { return true }
+func (e zzTempErr) Timeout() bool { return e.timeout }
 func (zzTempErr) Temporary() bool { return true }
 
 type zzListener struct {
@@ -85,8 +87,9 @@ func zzC15_faults() {
 	vQuiesce()
 	// temporary accept errors
 	ntemp := vLen("temperrs", 0, vParam("TEMP", 2))
+	isTimeout := ntemp > 0 && zzFlag("acceptErrIsTimeout")
 	for i := 0; i < ntemp; i++ {
-		l.ch <- zzAccept{err: zzTempErr{}}
+		l.ch <- zzAccept{err: zzTempErr{timeout: isTimeout}}
 		vQuiesce()
 		for vPendingTimers() > 0 {
 			vAdvance()
